@@ -247,10 +247,10 @@ func init() {
 			ex.regOrder = append(ex.regOrder, name)
 			return nil
 		},
-		"Tier":  func(ex *Exec, a []Val) Val { return goInt(ex.w.tier) },
-		"Byte":  func(ex *Exec, a []Val) Val { return Int{T: ex.freshVar("byte", 8), W: 8} },
-		"Int":   func(ex *Exec, a []Val) Val { return Int{T: ex.freshVar("int", 64), W: 64, S: true} },
-		"Int64": func(ex *Exec, a []Val) Val { return Int{T: ex.freshVar("int64", 64), W: 64, S: true} },
+		"Tier":    func(ex *Exec, a []Val) Val { return goInt(ex.w.tier) },
+		"Byte":    func(ex *Exec, a []Val) Val { return Int{T: ex.freshVar("byte", 8), W: 8} },
+		"Int":     func(ex *Exec, a []Val) Val { return Int{T: ex.freshVar("int", 64), W: 64, S: true} },
+		"Int64":   func(ex *Exec, a []Val) Val { return Int{T: ex.freshVar("int64", 64), W: 64, S: true} },
 		"Float64": func(ex *Exec, a []Val) Val { return symFloat(fpFromBits(ex.freshVar("float", 64)), 64) },
 		"Bool": func(ex *Exec, a []Val) Val {
 			t := ex.freshVar("bool", 8)
